@@ -122,7 +122,7 @@ static void hm_op(int n, char **w) {
     for (lru_node_t *x = hm->lru_first; x && budget-- > 0; prev = x, x = x->next) {
       if (c++) out(","); hm_key_out(x->key); if (x->prev != prev) bad = 1;
     }
-    if (!c) out("-");
+    if (!c) out("none");
     if (hm->lru_last != prev) bad = 1;
     if (bad) out(" lrubad");
     out(" b=");
